@@ -55,6 +55,8 @@ class FtpTreeServer:
         rows = []
         for name, kind in self.tree[path]:
             if verb == 'MLSD':
+                if kind == 'symlink':
+                    continue
                 if kind == 'dir':
                     rows.append('type=dir;modify=20180101000000; %s' % name)
                 else:
@@ -62,6 +64,8 @@ class FtpTreeServer:
             else:
                 if kind == 'dir':
                     rows.append('drwxr-xr-x   2 ftp  ftp      4096 Jan 01  2018 %s' % name)
+                elif kind == 'symlink':
+                    rows.append('lrwxrwxrwx   1 ftp  ftp         6 Jan 01  2018 %s -> target.txt' % name)
                 else:
                     rows.append('-rw-r--r--   1 ftp  ftp  %8d Jan 01  2018 %s' % (len(self.tree[path + name]), name))
         return ('\r\n'.join(rows) + ('\r\n' if rows else '')).encode()
